@@ -849,8 +849,16 @@ def corpus():
     spec = importlib.util.spec_from_file_location("verif_defects", os.path.join(vlib.VERIF, "corpus", "defects.py"))
     m = importlib.util.module_from_spec(spec)
     spec.loader.exec_module(m)
-    return ([(k, f) for k, f in m.ALL.items() if "_C04_" in k]
-            + [("c04_bases_build", _c04_bases_build), ("c04_docs_example", _c04_docs_example)])
+    def safe(fn):
+        def run():
+            try:
+                return fn()
+            except Exception as e:  # a reproducer that raises is a failing reproducer, not a broken check
+                return "raised %s: %s" % (type(e).__name__, e)
+        return run
+
+    return ([(k, safe(f)) for k, f in m.ALL.items() if "_C04_" in k]
+            + [("c04_bases_build", safe(_c04_bases_build)), ("c04_docs_example", safe(_c04_docs_example))])
 
 
 def EXHAUSTIVE(tier):
